@@ -33,6 +33,12 @@ def _exec(args):
     for _ in range(count):
         sx, sy = rng.random() < 0.5, rng.random() < 0.5
         wx, wy = rng.choice(words + [rng.randint(2, 70)]), rng.choice(words + [rng.randint(2, 70)])
+        if rng.random() < 0.35:          # directed at the carrier switch: the exact result needs 62..66 bits
+            tot = rng.choice([62, 63, 64, 65, 65, 66])
+            wx = rng.randint(2, tot - 2)
+            wy = tot - wx
+            if rng.random() < 0.5:
+                sx = sy = True           # (two signed operands: the product of the two most negative codes is +2^(wx+wy-2))
         tx = (sx, wx, rng.choice([0, wx, wx // 2, rng.randint(0, wx)]))
         ty = (sy, wy, rng.choice([0, wy, wy // 2, rng.randint(0, wy)]))
         for op in ('add', 'sub', 'mul'):
@@ -44,6 +50,11 @@ def _exec(args):
             # arrays
             k = min(len(a), len(b), 8)
             out.append(x_arith.observe_arith(fx, np, ['C19'], op, tx, ty, a[:k], b[:k], route=rng.choice(['operator', 'function'])))
+            # operands with a history: used (in wide operations too), then rewritten in place
+            k2 = k - k % 2
+            if k2 >= 4 and rng.random() < 0.5:
+                out.append(x_arith.observe_arith(fx, np, ['C19'], op, tx, ty, a[:k2], b[:k2], route=rng.choice(['operator', 'function']),
+                                                 dirty=rng.choice(x_arith.HIST)))
         # chains: results up to 256 bits
         pool = [(tx, _codes(rng, tx, 0)[rng.randint(0, 1)]), (ty, _codes(rng, ty, 0)[rng.randint(0, 1)])]
         for _ in range(4):
